@@ -410,7 +410,7 @@ def sig_listed(known, sig):
     for f in known.get("findings", []):
         if f.get("status", "open") != "open":
             continue
-        if f.get("signature") == sig:
+        if f.get("signature") == sig or sig in f.get("signatures", ()):
             return f
         # a finding may name a construct tag computed by the harness from the IDL (e.g.
         # "C02[arg-type+retention]|"): every failure carrying that tag is the same recorded defect
@@ -500,7 +500,7 @@ def verdict(pid, tier, seed, c, m, wall, build_s):
         g[2] += f["count"]
     for k, nsig, nexec in grouped.values():
         print("KNOWN-FINDING: property=%s %s [%s; %d signatures, %d failing executions]"
-              % (pid, k.get("description", ""), k.get("signature") or k.get("signature_regex") or k.get("signature_prefix") or ",".join(k.get("signature_prefixes", [])), nsig, nexec))
+              % (pid, k.get("description", ""), k.get("signature") or k.get("signature_regex") or k.get("signature_prefix") or ",".join(k.get("signature_prefixes", [])) or ("%d listed signatures" % len(k.get("signatures", []))), nsig, nexec))
     if violations:
         os.makedirs(rdir, exist_ok=True)
     for sig, f in violations:
